@@ -79,13 +79,13 @@ fn mpo_body<const NA: usize, const NB: usize, const NR: usize>() {
 	witness!(!compatible(&a, &b), "incompatible orders");
 }
 
-//# {"id":"c13_mpo_1_1","props":["C13"],"tier":"thorough","cap":3000,"bound":"T = newtype over u8, lists of length 1 and 1 over 4 values; unwind 4","z":["stubbing"],"fns":["dukebox::merge::merge_preserve_order::<E(u8)>"]}
-//# {"id":"c13_mpo_1_2","props":["C13"],"tier":"thorough","cap":6000,"bound":"T = newtype over u8, duplicate-free lists of length 1 and 2 over 4 values; unwind 5","z":["stubbing"],"fns":["dukebox::merge::merge_preserve_order::<E(u8)>"]}
-//# {"id":"c13_mpo_2_1","props":["C13"],"tier":"thorough","cap":6000,"bound":"T = newtype over u8, duplicate-free lists of length 2 and 1 over 4 values; unwind 5","z":["stubbing"],"fns":["merge_preserve_order::<E(u8)>"]}
-//# {"id":"c13_mpo_2_2","props":["C13"],"tier":"thorough","cap":6000,"bound":"T = newtype over u8, duplicate-free lists of length 2 and 2 over 4 values; unwind 6","z":["stubbing"],"fns":["merge_preserve_order::<E(u8)>"]}
-//# {"id":"c13_mpo_3_2","props":["C13"],"tier":"thorough","cap":3000,"bound":"T = newtype over u8, duplicate-free lists of length 3 and 2 over 4 values; unwind 7","z":["stubbing"],"fns":["merge_preserve_order::<E(u8)>"]}
-//# {"id":"c13_mpo_2_3","props":["C13"],"tier":"thorough","cap":3000,"bound":"T = newtype over u8, duplicate-free lists of length 2 and 3 over 4 values; unwind 7","z":["stubbing"],"fns":["merge_preserve_order::<E(u8)>"]}
-//# {"id":"c13_mpo_3_3","props":["C13"],"tier":"thorough","cap":3600,"bound":"T = newtype over u8, duplicate-free lists of length 3 and 3 over 4 values; unwind 8","z":["stubbing"],"fns":["merge_preserve_order::<E(u8)>"]}
+//# {"id":"c13_mpo_1_1","props":["C13"],"tier":"thorough","cap":1500,"bound":"T = newtype over u8, lists of length 1 and 1 over 4 values; unwind 4","lib":"verif","fns":["dukebox::merge::merge_preserve_order::<E(u8)>"]}
+//# {"id":"c13_mpo_1_2","props":["C13"],"tier":"thorough","cap":1500,"bound":"T = newtype over u8, duplicate-free lists of length 1 and 2 over 4 values; unwind 5","lib":"verif","fns":["dukebox::merge::merge_preserve_order::<E(u8)>"]}
+//# {"id":"c13_mpo_2_1","props":["C13"],"tier":"thorough","cap":6000,"bound":"T = newtype over u8, duplicate-free lists of length 2 and 1 over 4 values; unwind 5","lib":"verif","fns":["merge_preserve_order::<E(u8)>"]}
+//# {"id":"c13_mpo_2_2","props":["C13"],"tier":"thorough","cap":6000,"bound":"T = newtype over u8, duplicate-free lists of length 2 and 2 over 4 values; unwind 6","lib":"verif","fns":["merge_preserve_order::<E(u8)>"]}
+//# {"id":"c13_mpo_3_2","props":["C13"],"tier":"thorough","cap":3000,"bound":"T = newtype over u8, duplicate-free lists of length 3 and 2 over 4 values; unwind 7","lib":"verif","fns":["merge_preserve_order::<E(u8)>"]}
+//# {"id":"c13_mpo_2_3","props":["C13"],"tier":"thorough","cap":3000,"bound":"T = newtype over u8, duplicate-free lists of length 2 and 3 over 4 values; unwind 7","lib":"verif","fns":["merge_preserve_order::<E(u8)>"]}
+//# {"id":"c13_mpo_3_3","props":["C13"],"tier":"thorough","cap":3600,"bound":"T = newtype over u8, duplicate-free lists of length 3 and 3 over 4 values; unwind 8","lib":"verif","fns":["merge_preserve_order::<E(u8)>"]}
 proofs! {
 	#[cfg_attr(kani, kani::unwind(4))]
 	fn c13_mpo_1_1() { mpo_body::<1, 1, 2>(); }
